@@ -303,3 +303,84 @@ def c17(run):
                         "results are compared through digests taken by re-reading the very objects that were returned (strings, []byte, httphead.Option)"]
     traces_check(run, b, "c17", "TracePools")
     return run.finish("model_checking")
+
+
+@prop("C19")
+def c19(run):
+    import glob
+    b = run.build()
+    vlib.tlc_model(run, "Pools", workers=8)
+    vlib.tlc_model(run, "Pools", cfg="Pools_3", workers=8)
+    r = vlib.tlc_model(run, "Pools", cfg="Pools_earlyput", workers=4, expect_ok=False)
+    if r["ok"] or "NonInterference is violated" not in r["out"]:
+        raise Infra("anti-vacuity: the early-Put Pools model should violate NonInterference")
+    run.assumptions += ["the Go scheduler is not controllable: schedule coverage is stress sampling (N x GOMAXPROCS x seeded jitter), not enumeration",
+                        "'no data race' is the Go race detector's verdict on the same driver built with -race",
+                        "non-interference = each concurrent session's ordered observations equal those of the same session run alone (random mask keys and nonces are not part of the observations)"]
+    records_check(run, b, "c19", "C19Records")
+    # the same driver under the race detector
+    rb = run.build(race=True, name="wsverif-race")
+    logp = os.path.join(run.work, "race")
+    d, meta = run.drive(rb, "c19", sub="c19race", env={"GORACE": "exitcode=0 log_path=%s" % logp})
+    n, bad = vlib.tlc_records(run, "C19Records", meta["files"]["records"])
+    for f, idx, key in bad[:3]:
+        run.candidate("race-build/" + key, "session under -race differs from its solo run", lambda: (True, dict(note="record rejected in the -race build")))
+    reports = []
+    for f in glob.glob(logp + "*"):
+        txt = open(f).read()
+        if "DATA RACE" in txt:
+            reports.append(txt[:6000])
+    run.extra["race_detector_sessions"] = meta.get("evaluations", 0)
+    run.extra["race_reports"] = len(reports)
+    for i, rep in enumerate(reports[:3]):
+        run.candidate("race/%d" % i, "data race reported by the Go race detector", lambda rep=rep: (True, dict(report=rep)))
+    return run.finish("model_checking")
+
+
+@prop("C15")
+def c15(run):
+    import random
+    import re as _re
+    b = run.build()
+    # mutation scripts drawn from the specification (TLC -simulate on Mutate.tla)
+    md = os.path.join(run.work, "md-mutate")
+    num = 40 if run.tier == "quick" else 400
+    rc, out = vlib.java(["-metadir", md, "-workers", "1", "-nowarning", "-simulate", "num=%d" % num, "-depth", "4",
+                         "-seed", str(run.seed), "-config", "Mutate.cfg", "Mutate.tla"], vlib.SPEC, timeout=600)
+    scripts = _re.findall(r'"VERIF-MUT",\s*"((?:[^"\\]|\\.)*)"', out)
+    if len(scripts) < 10:
+        raise Infra("TLC -simulate produced no mutation scripts:\n" + vlib.clean(out)[-2000:])
+    rnd = random.Random(run.seed)
+    rnd.shuffle(scripts)
+    keep = scripts[:400 if run.tier == "quick" else 6000]
+    mutf = os.path.join(run.work, "mutations.ndjson")
+    with open(mutf, "w") as f:
+        for s in keep:
+            f.write(s.replace('\\"', '"') + "\n")
+    run.extra["tlc_mutation_scripts"] = len(keep)
+    run.cov["states"] += len(scripts)
+    run.cov["transitions"] += len(scripts)
+    run.assumptions += ["model-guided (TLC -simulate over Mutate.tla) and seeded mutation of valid seeds: exploration, not a proof of totality",
+                        "panic / no-progress loop / allocation / payload-pulled monitors are Go-side (DESIGN 10); TLC judges the logged outcome records",
+                        "a crash of the driver process (fatal out-of-memory under ulimit -v, or the 20 s watchdog) is attributed to the input it was processing and confirmed by re-running that input alone"]
+    try:
+        records_check(run, b, "c15", "C15Records", env={"C15_MUT": mutf, "VERIF_ULIMIT_KB": str(8 * 1024 * 1024)})
+    except Infra as e:
+        # did the driver die while processing an input?
+        cur = os.path.join(run.work, "c15", "current_input")
+        if not os.path.exists(cur):
+            raise
+        key = open(cur, "rb").read().split(b"\x00")[0].decode(errors="replace").strip()
+        if not key:
+            raise
+
+        def recheck():
+            try:
+                run.drive(b, "c15", sub="recheck-crash", env={"C15_MUT": mutf, "VERIF_ONLY": key, "VERIF_ULIMIT_KB": str(8 * 1024 * 1024)})
+            except Infra as e2:
+                return True, dict(key=key, crash=str(e2)[-1500:])
+            return False, None
+        run.candidate(key, "the process died (fatal error / hang) while decoding this input", recheck)
+        run.cov["evaluations"] = max(run.cov["evaluations"], 1)
+        run.cov["distinct_nontrivial"] = max(run.cov["distinct_nontrivial"], 2)
+    return run.finish("exploration")
